@@ -161,7 +161,13 @@ class Sym:
         return "(TTagJunk %d)" % self.tagj[b]
 
     def keys(self, sk):
-        return self.sk_by_fwd[bytes(sk.key_forward)]
+        t = self.sk_by_fwd.get(bytes(sk.key_forward))
+        if t is None:
+            # keys that were not derived as KDF(dh || dh): a term no model run produces
+            t = "(TKdf (TDHJ 0 %d) (TDHJ 0 %d))" % (len(self.sk_by_fwd) + 1, len(self.sk_by_fwd) + 1)
+            self.sk_by_fwd[bytes(sk.key_forward)] = t
+            self.skeys.append((sk, t))
+        return t
 
     def cenc(self, b):
         b = bytes(b)
@@ -300,6 +306,7 @@ class Rec:
         self.pre = self.ev = self.post = None
         self.acts, self.rm, self.added, self.adds = [], [], [], []
         self.exc = self.payload = self.choice = None
+        self.snap_pre, self.snap_post, self.gen0 = {}, {}, 0
         self.known = ()
         self.open, self.bad = True, False
         self.cid = self.src = self.extra = None
@@ -318,6 +325,7 @@ class Net(TunnelNet):
         self.cur = None           # handler record being executed (handlers never nest across nodes)
         self.attack = None
         self.active = True
+        self.alpha_errors = []    # states the abstraction could not express (reported as a broken correspondence)
 
     # -- record helpers
     def begin(self, ov, kind):
@@ -325,9 +333,13 @@ class Net(TunnelNet):
         if ov._c08_open is not None:          # a deferred timeout record is still open on this node
             ov._c08_open.bad = True
             r.bad = True
-        r.pre = alpha(self.sym, ov)
         r.snap_pre = snapshot(ov)
         r.gen0 = len(self.sym.keyobjs)
+        try:
+            r.pre = alpha(self.sym, ov)
+        except Exception as e:   # noqa: the abstraction must never disturb the node under observation
+            r.bad = True
+            self.alpha_errors.append("%s: %r" % (ov._verif_name, e))
         ov._c08_cur = r
         self.cur = r
         self.sym.cur_owner = ov._verif_name
@@ -338,8 +350,12 @@ class Net(TunnelNet):
             return
         r.open = False
         ov._c08_rm.extend(r.rm)
-        r.post = alpha(self.sym, ov)
         r.snap_post = snapshot(ov)
+        try:
+            r.post = alpha(self.sym, ov)
+        except Exception as e:   # noqa
+            r.bad = True
+            self.alpha_errors.append("%s: %r" % (ov._verif_name, e))
         if ov._c08_cur is r:
             ov._c08_cur = None
         if self.cur is r:
@@ -643,6 +659,8 @@ class Patches:
                 term = "(TKdf %s %s)" % (s1, s2)
                 sym.sk_by_fwd[bytes(sk.key_forward)] = term
                 sym.skeys.append((sk, term))
+            else:
+                sym.keys(sk)
             return sk
         self.set(cr, "_generate_session_keys", gsk)
 
@@ -1060,14 +1078,14 @@ def oracle(net, atk, info, report):
         # the attempt outstanding when the handler ran = the last create/extend sent before this record
         att = None
         for a in atts:
-            if a["n_hops"] == len(r.snap_pre.get(c.circuit_id, ([],))[0]):
+            if a["n_hops"] == len((r.snap_pre or {}).get(c.circuit_id, ([],))[0]):
                 att = a
         if p.circuit_id != c.circuit_id:
             report("accept/other-circuit", "answer for circuit %d appended a hop to circuit %d (%s)" % (p.circuit_id, c.circuit_id, tag))
         if att is None:
             report("accept/no-outstanding-attempt", "hop appended without an outstanding create/extend (%s)" % tag)
             continue
-        pre = r.snap_pre.get(c.circuit_id)
+        pre = (r.snap_pre or {}).get(c.circuit_id)
         if pre is None or pre[2] is None:
             report("accept/no-retry-cache", "hop appended while no retry cache was outstanding (%s)" % tag)
         elif pre[2] != p.identifier:
@@ -1094,10 +1112,10 @@ def oracle(net, atk, info, report):
             report("accept/keys-not-from-selected-static",
                    "hop keys are not KDF(dh(x, key) || dh(x, static key of the selected peer)) (%s)" % tag)
         # established hops untouched by the accepting handler
-        post = r.snap_post.get(c.circuit_id)
+        post = (r.snap_post or {}).get(c.circuit_id)
         if pre is not None and post is not None and post[0][:len(pre[0])] != pre[0]:
             report("established-hop-changed", "accepting handler modified an earlier hop (%s)" % tag)
-        if post is not None and len(post[0]) != len(pre[0]) + 1:
+        if post is not None and pre is not None and len(post[0]) != len(pre[0]) + 1:
             report("established-hop-changed", "accepting handler changed the hop count by other than one (%s)" % tag)
         # who else holds these keys at the end
         hs = (info["holders"].get(keybytes(hop.keys), set()) | held.get(keybytes(hop.keys), set())) - {node}
@@ -1132,8 +1150,8 @@ def oracle(net, atk, info, report):
         n = type(r.payload).__name__ if r.payload is not None else None
         if n not in ("CreatedPayload", "ExtendedPayload", None):
             continue
-        for cid, pre in r.snap_pre.items():
-            post = r.snap_post.get(cid)
+        for cid, pre in (r.snap_pre or {}).items():
+            post = (r.snap_post or {}).get(cid)
             if post is None:
                 continue
             if post[0] != pre[0]:
@@ -1243,7 +1261,8 @@ def execute(spec, seed, sweep=None):
     stats = {"recs": len(net.recs), "accepts": len(net.hop_adds), "fired": atk.fired if atk else 0,
              "ready": info.get("state", ("", 0))[0] == "READY",
              "undecodable": sum(1 for r in net.recs if r.kind == "undecodable"),
-             "interleaved": sum(1 for r in net.recs if r.bad), "escaped": info.get("escaped", 0)}
+             "interleaved": sum(1 for r in net.recs if r.bad), "escaped": info.get("escaped", 0),
+             "alpha_errors": net.alpha_errors[:3]}
     return viol, cases, stats
 
 
@@ -1296,6 +1315,7 @@ def run(ctx):
     all_cases, seen = [], set()
     dist = {}
     n_scen = fired = accepts = escaped = interleaved = 0
+    alpha_reported = []
     todo = [(sp, ctx.seed, None) for sp in specs(ctx) if sp[3] != "sweep"]
     if not ctx.quick:
         rng = ctx.rng("sweep")
@@ -1316,6 +1336,9 @@ def run(ctx):
         accepts += stats["accepts"]
         escaped += stats["escaped"]
         interleaved += stats["interleaved"]
+        if stats["alpha_errors"] and not alpha_reported:
+            alpha_reported.append(1)
+            ctx.broke("correspondence: a node state could not be abstracted in scenario %s" % list(spec), stats["alpha_errors"])
         dist[spec[3]] = dist.get(spec[3], 0) + 1
         for k, what in viol:
             ctx.violation(k, what, {"spec": list(spec), "seed": ctx.seed, "sweep": list(sweep) if sweep else None})
